@@ -54,6 +54,11 @@ def handle (l : Line) : Option Verdict :=
                  ("burst_detected", r != r2)]
       else .bad "crc_dmg: d2 is not a <=32-bit burst damage of data"
     | _, _, _, _ => .bad "crc_dmg args"
+  | "pgcrc" => some <|
+    -- every page the writer produces carries a checksum (write_crc is on by default); see harness/ops_pagecrc.c
+    match l.outNat "has_crc" with
+    | some c => verdict [] [("page_has_crc", c == 1)]
+    | none => .bad "pgcrc args"
   | "pgdmg" => some <|
     -- a page body of a carquet-written file, its stored CRC, and a damage pattern; see harness/ops_pagecrc.c
     match l.inHex "body", l.inNat "crc", l.inNat "start", l.inHex "mask", l.outInt "clean", l.outInt "von" with
